@@ -187,6 +187,12 @@ class SymEval:
         self.exec_block(stmts, frame)
         return Result(self, frame)
 
+    def invoke(self, fterm: Term, args: Sequence[Term], frame: Frame, kwargs=(), node=None) -> Term:
+        """Call a closure / callable term obtained from a finished evaluation (e.g. the function a factory returns)."""
+        self.live = T.TRUE
+        self.loop_stack = ()
+        return self.call(fterm, list(args), list(kwargs), node, frame)
+
     # ------------------------------------------------------------------ typing helpers
     def _annotation_class(self, ann, module: str) -> Optional[str]:
         if ann is None:
@@ -722,7 +728,47 @@ class SymEval:
             return ("slice", base, self.eval(s.lower, frame) if s.lower else None,
                     self.eval(s.upper, frame) if s.upper else None, self.eval(s.step, frame) if s.step else None)
         key = self.eval_slice(e.slice, frame)
+        if base[0] == "comp" and base[1] == "dict" and base[2][0] == "tuple" and len(base[3]) == 1 and not base[4]:
+            r = self.index_dictcomp(base, key)
+            if r is not None:
+                return r
         return T.mk_index(base, key)
+
+    def index_dictcomp(self, comp: Term, key: Term) -> Optional[Term]:
+        """{k: v for ... in X.items()/X.keys()/X}[key]  ->  v with the loop element bound to `key`."""
+        k, v = comp[2][1]
+        it = comp[3][0][1]
+        elems = [x for x in T.walk(k) if x[0] == "elem"]
+        if len(elems) != 1:
+            return None
+        el = elems[0]
+        mapping: Dict[Term, Term] = {}
+        if k == el:
+            mapping[el] = key
+        elif k == T.mk_index(el, T.const(0)) and it[0] == "call" and isinstance(it[1], str) and it[1].endswith(".items"):
+            mapping[k] = key
+            mapping[T.mk_index(el, T.const(1))] = T.mk_index(T.sym(it[1][: -len(".items")]), key)
+        else:
+            return None
+        return self.subst_value(v, mapping)
+
+    def subst_value(self, v: Term, mapping: Dict[Term, Term]) -> Term:
+        if v[0] == "closure":
+            c = self.closures.get(v[1])
+            if c is None:
+                return v
+            u = self.uid()
+            fr = c.frame
+            if fr is not None:
+                fr2 = Frame(fr.func, fr.module, fr.cls,
+                            {n: (x if x[0] == "closure" else T.subst(x, mapping)) for n, x in fr.env.items()}, parent=fr.parent)
+            else:
+                fr2 = None
+            self.closures[u] = Closure(u, c.kind, c.node, fr2, tuple(self.subst_value(a, mapping) for a in c.bound_args),
+                                       tuple((kk, self.subst_value(a, mapping)) for kk, a in c.bound_kwargs),
+                                       self.subst_value(c.inner, mapping) if c.inner is not None else None, c.qualname, c.wrap)
+            return ("closure", u)
+        return T.subst(v, mapping)
 
     def ex_Lambda(self, e, frame):
         u = self.uid()
